@@ -1,26 +1,31 @@
 ---------------------------- MODULE SidecarTable ----------------------------
 (* model -> code for the decision table of C16: every state is one row of   *)
-(* the table together with the outcome SidecarDecision.Launch demands; the  *)
-(* harness concretizes each row (environment, mode file, token file with    *)
-(* its age, local directory), runs a real program that calls                *)
-(* telemetry.Start, and compares the process-start log and the directory    *)
-(* snapshot with the row.                                                    *)
+(* the table, the circumstances of the run (how many starts in sequence,    *)
+(* debug directory, upload flag already in the environment, application     *)
+(* crash) and the outcome SidecarDecision demands; the harness concretizes  *)
+(* each row (environment, mode file, token file with its age, local         *)
+(* directory; shapes from SidecarConcrete.tla), runs a real program that    *)
+(* calls telemetry.Start, and compares the process-start log and the        *)
+(* directory snapshot with the row.                                          *)
 EXTENDS SidecarDecision
-VARIABLES row, out, pred
+CONSTANT AllExtras      \* TRUE: every combination of circumstances; FALSE: one non-default circumstance at a time
+VARIABLES row, ext, out, pred
 
 Init == /\ row \in Rows
+        /\ ext \in {e \in Extras : Applicable(row, e) /\ (AllExtras \/ OneFactor(e))}
         /\ out = Launch(row)
-        /\ pred = Predicted(row)
-Next == UNCHANGED <<row, out, pred>>
+        /\ pred = Predicted(row, ext)
+Next == UNCHANGED <<row, ext, out, pred>>
 
 (* the clauses of the property hold on the table, row by row *)
-RowOK == \A c \in Clauses : Holds(c, row, pred)
+RowOK == \A c \in Clauses : Holds(c, row, ext, pred)
 (* structural facts a reader of the documentation expects *)
 ChildNeedsApplication == out.child => row.marker = "unset"
 UploadImpliesChild == out.upload => out.child /\ out.acquired
-OffWritesNothing == row.mode = "off" => out.wrote = {} /\ ~out.child
-MarkedWritesNoToken == row.marker # "unset" => "token" \notin out.wrote
-CrashAloneSuffices == (Eligible(row) /\ row.crash) => out.child
+OffWritesNothing == row.mode = "off" => pred.wrote = {} /\ pred.launched = 0
+MarkedWritesNoToken == row.marker # "unset" => "token" \notin pred.wrote
+CrashAloneSuffices == (Eligible(row) /\ row.crash) => out.child /\ pred.sidecars = ext.calls
+OneTokenPerSequence == (~ext.leak) => pred.uploaders <= 1
 ASSUME TableSatisfiesProperty
 ASSUME TableNotVacuous
 =============================================================================
